@@ -4,7 +4,7 @@
  'extract': 'units/C14/extract_sv.py',
  'params': {'GROUP': [1, 2]},
  'kf': ['C14_erase_lifetime'], 'kf_probe_case': {'C14_erase_lifetime': {'GROUP': 2}},
- 'loop_contracts_in_unit': 1, 
+ 'loop_contracts_in_unit': 1, 'defines': ['ELEM_PACKED'], 'solver': 'cadical', 
  'inject': [{'file': 'overlay:cxx/sv.c', 'func': 'static_vector_erase', 'loop': 0, 'expect': 'i < sz',
              'assigns': 'i, __CPROVER_object_whole(self->_data)',
              'invariants': ['i <= sz && sz == g_sz', 'SPEC_VAL0', 'SPEC_ST0(g_k)'],
